@@ -38,6 +38,10 @@ class Prop:
         of failure dicts (each becomes a violation candidate)"""
         return []
 
+    def extra_coverage(self):
+        """extra keys for the evidence's coverage object (measured by extra_checks)"""
+        return {}
+
     def shrink_fields(self, line):
         """indices of the hex fields of a case line that may be shrunk"""
         parts = line.split(" ")
@@ -286,6 +290,7 @@ def run(prop, tier, seed, replay=None):
         "impl_builds": [l for l, _ in impls],
         "known_findings_reproduced": len(known_lines),
     }
+    coverage.update(prop.extra_coverage())
     core.write_evidence(pid, tier, seed, coverage, list(prop.assumptions), wall, 1 if status else 0, level=prop.level)
 
     for l in known_lines:
